@@ -200,6 +200,7 @@ def stuck (nShut : Nat) (expired : Bool) : Rel → Bool
   | .hook j => j ≥ nShut
   | .drain => expired
   | .never => true
+  | .hijack => false   -- not the drain's business
 
 /-! ### executeStopHooks (each under its own recover) -/
 
@@ -213,6 +214,7 @@ def reqResOf (sent : Bool) (shutRan : Nat → Bool) (drained : Bool) : Rel → R
   | .hook j => if sent && shutRan j then .complete else .na
   | .drain => if sent && drained then .complete else .na
   | .never => .na
+  | .hijack => if sent then .complete else .na
 
 /-- did OnShutdown hook `j` run? (`firstPanic` = index of the panicking hook that ended the loop) -/
 def shutRanIdx (nShut : Nat) (firstPanic : Option Nat) (j : Nat) : Bool :=
